@@ -4,6 +4,8 @@
 b="$1"; msg="$2"
 cd /verif
 git merge --no-edit "$b" 2>&1 | grep -i "conflict"
+# evidence files are rewritten by every run: keep ours
+for f in $(git diff --name-only --diff-filter=U | grep "^evidence/"); do git checkout --ours -- "$f"; git add "$f"; done
 python3 tools/regen_lean_roots.py >/dev/null
 git show 4e0bd14:lean/Proofs.lean > lean/Proofs.lean
 bad=$(grep -rl "^<<<<<<< " --include="*.lean" --include="*.py" --include="*.toml" --include="*.md" --include="*.json*" lean/PM lean/Proofs lean/Props lean/Driver lean/*.lean lean/lakefile.toml harness tools 2>/dev/null </dev/null)
